@@ -29,7 +29,7 @@ Task: make ONE small change (ideally 1-25 changed lines, in one or two files und
  2. the change is plausible as an honest mistake of a competent developer -- no sabotage that a reviewer would spot at a glance (no `if w == 'abc': return False`, no random numbers, no dead code whose only purpose is to break);
  3. the property must really be the one that breaks: the function you change must be one of the anchors above or be CALLED (directly or through helpers) by them when the property's operations run -- check this by reading the call chain, not by guessing;
  4. colleagues have already used these functions in earlier rounds, choose another one if you reasonably can (if the property leaves no other function, a different KIND of mistake in one of them is fine): {done}.
- Kinds of mistake that are used up: off-by-one in a range, dropped epsilon closure, swapped operands, removed visited-set, mutable default argument, module-level cache, a fixed epsilon / comment character that collides with a legal symbol, an extra validation that rejects legal input, one set object shared by several dictionary entries, comparing numbers as strings, selecting occurrences by value instead of by position, a wrong nullability helper, DFS instead of BFS, a memo keyed too coarsely, in-place mutation of an argument. Think of something else: a boundary case (empty word, empty set, single state, a symbol that occurs twice), a wrong operator precedence or De Morgan slip, `and`/`or` or `any`/`all` confusion, `<`/`<=` at an end of a slice, a loop that stops one element early or skips the first, a stale variable reused after a loop, shadowing of an outer name by a comprehension or loop variable, an update applied to the old instead of the new collection, the result of a call discarded, two similar names confused (left/right, source/target, p/q, Q1/Q2, u/v), a dictionary `.get` default that hides a missing key, a condition hoisted out of a loop although it depends on the loop, iteration over a collection while it changes, a set where order or multiplicity matters (or a list where duplicates hurt), an early `break`/`return` inside a loop that should look at all elements, a generator consumed twice, an exception swallowed by a broad `except`.
+ Kinds of mistake that are used up: off-by-one in a range, dropped epsilon closure, swapped operands, removed visited-set, mutable default argument, module-level cache, a fixed epsilon / comment character that collides with a legal symbol, an extra validation that rejects legal input, one set object shared by several dictionary entries, comparing numbers as strings, selecting occurrences by value instead of by position, a wrong nullability helper, DFS instead of BFS, a memo keyed too coarsely, in-place mutation of an argument, De Morgan slips, `any`/`all` confusion, `sorted(Q)` in one place and `list(Q)` in another, a bare `break` that leaves a loop early, a try/except that encloses too much, a default argument evaluated at definition time, a cached string used for `__eq__`, reusing an existing variable/state instead of a fresh one, a comprehension variable shadowing an outer name, a parameter inserted before another positional one, a shallow copy, names joined with a separator that may occur in the names, a one-shot iterator (groupby / generator) consumed twice, unbound `set.union(*[])`. Think of something else: a helper factored out of two call sites that fits only one of them; a "fast path" / early exit whose precondition is subtly weaker than the general path; truthiness confusing empty, None and 0 (`if x:` vs `if x is not None`, `x or default`); `is` vs `==`; `zip` silently truncating unequal lengths; a dict or set comprehension that silently merges entries with equal keys; `min`/`max`/`len` computed before a loop and stale afterwards; `for ... else` attached to the wrong loop; a store-then-mutate alias (an object put into a result and modified afterwards); `__hash__`/`__eq__`/`__lt__` that disagree; string methods (`strip`, `split`, `startswith`, `replace`) applied to names that may contain the separator or be empty; a condition that tests the first/last element only; an update that should be simultaneous done sequentially (reading values already overwritten); an accumulator initialised inside instead of outside a loop (or the reverse); an index that is advanced in one branch only; a boundary between "no transition" and "transition to the empty set"; a result built from the keys of a map instead of the declared set (or the reverse); `set` difference/intersection/union confused in a rarely exercised branch; a check done on the original after the copy was modified (or the reverse); a renamed state/variable not renamed everywhere (start state, final set, one side of the transitions); a recursion that forgets one constructor in a rarely used combination; a changed iteration order of alternatives where the first match wins.
 
 Deliverables, all under {wt}/_seed/ (create the directory):
  - patch.diff : `git -C {wt} diff -- src notebooks > {wt}/_seed/patch.diff` (the change and nothing else);
